@@ -42,17 +42,17 @@ class Agg:
             self.viols.append(v)
 
 
-def _run_one(exe, args, env, timeout, log):
+def _run_one(exe, args, env, timeout, log, wrapper=None):
     t = time.time()
     try:
         with open(log, "w") as lf:
-            p = subprocess.run([exe] + args, stdout=subprocess.PIPE, stderr=lf, env=env, timeout=timeout)
+            p = subprocess.run((wrapper or []) + [exe] + args, stdout=subprocess.PIPE, stderr=lf, env=env, timeout=timeout)
         return p.returncode, p.stdout.decode("utf-8", "replace"), time.time() - t
     except subprocess.TimeoutExpired as e:
         return "timeout", (e.stdout or b"").decode("utf-8", "replace"), time.time() - t
 
 
-def run_engine(agg, exe, prop, tier, seed, mode, tag, nshards=None, extra=None, env_extra=None, timeout=None, fp_bits=22, only=None, scale=None):
+def run_engine(agg, exe, prop, tier, seed, mode, tag, nshards=None, extra=None, env_extra=None, timeout=None, fp_bits=22, only=None, scale=None, wrapper=None):
     """Run `exe` in nshards parallel processes and fold their JSON-lines output into agg."""
     nshards = nshards or build.NCPU
     if only is not None:
@@ -85,7 +85,7 @@ def run_engine(agg, exe, prop, tier, seed, mode, tag, nshards=None, extra=None, 
         jobs.append((args, log))
     runinfo = {"exe": os.path.basename(exe), "tag": tag, "mode": mode, "tier": tier, "seed": seed, "nshards": nshards, "extra": extra or []}
     with ThreadPoolExecutor(max_workers=build.NCPU) as ex:
-        futs = [ex.submit(_run_one, exe, a, env, timeout, l) for a, l in jobs]
+        futs = [ex.submit(_run_one, exe, a, env, timeout, l, wrapper) for a, l in jobs]
         for (a, l), f in zip(jobs, futs):
             rc, out, dt = f.result()
             agg.engine_runs += 1
@@ -118,6 +118,12 @@ def run_engine(agg, exe, prop, tier, seed, mode, tag, nshards=None, extra=None, 
                 kind = what.split(" ")[0] + ("-" + what.split(" ")[1] if len(what.split(" ")) > 1 and what.split(" ")[1] in ("race", "inversion") else "")
                 agg.viols.append({"key": "%s:%s:%s" % ({"ThreadSanitizer": "tsan", "AddressSanitizer": "asan", "UndefinedBehaviorSanitizer": "ubsan"}[m.group(1)], kind, fn.group(1) if fn else "?"), "msg": "sanitizer report: " + what, "case": " ".join(a), "idx": -1, "run": runinfo, "prop": prop})
                 agg.stats["tsan_reports"] = agg.stats.get("tsan_reports", 0) + (1 if m.group(1) == "ThreadSanitizer" else 0)
+            if wrapper and "valgrind" in wrapper[0]:
+                # memcheck's control-flow complaints are recorded, not judged: the codec reads not-yet-written look-ahead slots and
+                # validates them afterwards, which is benign (the prefill differential decides); only the data-flow verdict of the engine counts
+                agg.stats["memcheck_uninit_branch_or_address_reports_not_judged"] = agg.stats.get("memcheck_uninit_branch_or_address_reports_not_judged", 0) + len(re.findall(r"Conditional jump or move depends|Use of uninitialised value", full))
+                if re.search(r"valgrind: |Unrecognised instruction|unhandled instruction", full):
+                    agg.harness_errors.append("valgrind could not run engine %s %s: %s" % (os.path.basename(exe), mode, full[-800:]))
             if rc == "timeout":
                 agg.harness_errors.append("engine %s %s shard timed out after %.0fs (inconclusive)" % (os.path.basename(exe), mode, dt))
             elif rc != 0 or not done:
